@@ -295,6 +295,8 @@ def token_spec(rng, idx):
         entries.append({"kind": "member", "indent": ind + "  ", "decl": "~%s()" % name})
         for _ in range(rng.randint(1, 3)):
             add_fn(ind + "  ", allow_overload=False)
+        if not template and rng.random() < 0.3:
+            add_enum(ind + "  ")
         if not template and rng.random() < 0.4:
             # a method that returns "this" (documented field return_this: True)
             tok = "zq%dfn%dx" % (idx, counter[0])
@@ -309,6 +311,23 @@ def token_spec(rng, idx):
             (oc, of) = rng.choice(CF_DOMAIN)
             over = {"c": oc, "fortran": of}
         entries.append({"kind": "struct", "indent": "", "name": "Zq%dsta" % idx, "over": over})
+    def add_enum(indent):
+        """An enumeration is a declaration too (C header, Fortran parameters, Python constants)."""
+        over = {}
+        if rng.random() < 0.7:
+            (oc, of) = rng.choice(CF_DOMAIN)
+            over = {"c": oc, "fortran": of}
+            if rng.random() < 0.5:
+                over["python"] = rng.random() < 0.5
+            if over.get("fortran") and not over.get("c"):
+                over["c"] = True
+        name = "Zq%den%s" % (idx, "abcd"[nenum[0] % 4])
+        nenum[0] += 1
+        entries.append({"kind": "enum", "indent": indent, "name": name, "over": over})
+
+    nenum = [0]
+    if rng.random() < 0.5:
+        add_enum("")
     for _ in range(rng.randint(2, 5)):
         add_fn("")
     if rng.random() < 0.4:
@@ -385,6 +404,32 @@ def render_token_library(spec, wp, wl):
             tokens[e["name"]] = {"c": bool(base["c"]), "fortran": bool(base["fortran"]), "python": bool(base["python"]),
                                  "lua": False, "shape": "class-template" if e.get("template") else e["what"],
                                  "lua_unsupported": True, "members": 0}
+            continue
+        if e["kind"] == "enum":
+            ind = e["indent"]
+            depth = len(ind) // 2
+            while stack and stack[-1][0] > depth:
+                stack.pop()
+            up = e["name"].upper()
+            lines.append("%s- decl: enum %s { %s_ONE, %s_TWO = 5 }" % (ind, e["name"], up, up))
+            eff = dict(stack[-1][2]) if stack else dict(lf)
+            if e["over"]:
+                lines.append("%s  options:" % ind)
+                for k in LANGS:
+                    if k in e["over"]:
+                        lines.append("%s    wrap_%s: %s" % (ind, k, e["over"][k]))
+                        eff[k] = e["over"][k]
+            if eff["fortran"] and not eff["c"]:
+                return None
+            tokens[e["name"]] = {"c": bool(eff["c"]), "fortran": bool(eff["fortran"]), "python": bool(eff["python"]),
+                                 "lua": False, "shape": "enum", "lua_unsupported": True, "members": 1}
+            on_langs.update(l for l in LANGS if eff[l] and l != "lua")
+            for (_d, cname, _b) in stack:
+                t = tokens[cname]
+                t["members"] += 1
+                for l in LANGS:
+                    if l != "lua":
+                        t[l] = t[l] or bool(eff[l])
             continue
         if e["kind"] == "struct":
             lines.append("- decl: struct %s {" % e["name"])
